@@ -30,6 +30,8 @@ type c12Case struct {
 	Mut    string `json:"mutation,omitempty"`
 	Name   string `json:"name,omitempty"`
 	K      int    `json:"k,omitempty"`
+	// NoTimeout: MaxResponseTime disabled, so only the death of the connection (or Close) can end a request
+	NoTimeout bool `json:"no_timeout,omitempty"`
 }
 
 // c12Script is the recorded server conversation for requests on streams 1 and 3.
@@ -86,6 +88,9 @@ func c12Expected(delivered []byte) map[uint32]*c12Done {
 
 func c12Exec(cs c12Case) (*fw.Violation, *harness.Client) {
 	opts := harness.ClientOpts{MaxResponseTime: 1000000000}
+	if cs.NoTimeout {
+		opts.MaxResponseTime = -1
+	}
 	h := harness.NewClient(opts)
 	mk := func(rule, shape, detail string) *fw.Violation {
 		ev := h.EventLog
@@ -240,6 +245,24 @@ func c12Exec(cs c12Case) (*fw.Violation, *harness.Client) {
 		h.CloseClient()
 		feed(serialize(script[cs.K:]))
 		shape = "client-close"
+	case "close-stalled":
+		// the server stops reading, then the user closes the client and issues one more request
+		script := c12Script(h.Conns[0].Enc)
+		feed(serialize(script[:cs.K]))
+		h.ServerStall(0)
+		h.CloseClient()
+		calls = append(calls, h.Go(harness.ReqSpec{Tag: "after-close", Method: "GET", Path: "/after"}))
+		shape = "client-close-server-not-reading"
+	case "stalled":
+		// the server stops reading while requests keep coming, then goes away
+		script := c12Script(h.Conns[0].Enc)
+		feed(serialize(script[:cs.K]))
+		h.ServerStall(0)
+		for i := 0; i < 3; i++ {
+			calls = append(calls, h.Go(harness.ReqSpec{Tag: fmt.Sprint("stalled", i), Method: "POST", Path: "/stalled", Body: []byte("upload")}))
+		}
+		h.ServerClose(0)
+		shape = "server-not-reading-then-gone"
 	}
 	// let every timer that can end a request fire
 	for i := 0; i < 40; i++ {
@@ -282,6 +305,11 @@ func c12Exec(cs c12Case) (*fw.Violation, *harness.Client) {
 		if !h.FireTimer("") {
 			break
 		}
+	}
+	if cs.Family == "close-stalled" {
+		// the server went away without ever reading again: the blocked write fails and Close returns
+		h.Conns[0].Stalled = false
+		h.ServerClose(0)
 	}
 	if live := h.S.LiveNames(); len(live) > 0 {
 		return mk("goroutine-left-behind", shape+" "+live[0], fmt.Sprintf("after Client.Close: %v still alive", live)), h
@@ -361,11 +389,29 @@ func runC12(c *fw.Ctx) {
 	c.Family("hostile")
 	for k := 1; k <= 16; k++ {
 		do(c12Case{Family: "writefail", K: k})
+		do(c12Case{Family: "writefail", K: k, NoTimeout: true})
 	}
 	for k := 0; k <= len(script); k++ {
 		do(c12Case{Family: "close", K: k})
+		do(c12Case{Family: "close", K: k, NoTimeout: true})
+		do(c12Case{Family: "close-stalled", K: k})
+		do(c12Case{Family: "close-stalled", K: k, NoTimeout: true})
+		do(c12Case{Family: "stalled", K: k})
+		do(c12Case{Family: "stalled", K: k, NoTimeout: true})
 	}
 	c.Family("write-faults-and-close")
+	// without request timeouts only the end of the connection can resolve a request: every cut again
+	step := 4
+	if c.Tier == "thorough" {
+		step = 1
+	}
+	for cut := 0; cut <= total; cut += step {
+		do(c12Case{Family: "cut", Cut: cut, NoTimeout: true})
+	}
+	for _, n := range []string{"goaway-0", "goaway-error-mid-response", "oversized-frame", "garbage", "push-promise", "window-update-overflow", "settings-invalid"} {
+		do(c12Case{Family: "hostile", Name: n, NoTimeout: true})
+	}
+	c.Family("no-request-timeout")
 }
 
 func replayC12(raw json.RawMessage) (string, bool) {
